@@ -235,9 +235,14 @@ def audit(P, ta, order, fails, op, ns=None, light=False):
     sd = ta.split_distribution
     if n and not ign_len:
         try:
-            tabs = [("edge-length", sd.split_edge_length_summaries, sd.split_edge_lengths)]
-            if ages_on:
-                tabs.append(("node-age", sd.split_node_age_summaries, sd.split_node_ages))
+            # (read in either order, alternating with the number of trees: whichever table is read first must not make the other look current)
+            if ages_on and n % 2 == 0:
+                t_age = sd.split_node_age_summaries
+                tabs = [("node-age", t_age, sd.split_node_ages), ("edge-length", sd.split_edge_length_summaries, sd.split_edge_lengths)]
+            else:
+                tabs = [("edge-length", sd.split_edge_length_summaries, sd.split_edge_lengths)]
+                if ages_on:
+                    tabs.append(("node-age", sd.split_node_age_summaries, sd.split_node_ages))
             for what, table, values in tabs:
                 for m, vals in values.items():
                     vv = [x for x in vals if x is not None]
@@ -1085,6 +1090,54 @@ class _Rep(K.Reporter):
                 self.per[mon] = n + 1
 
 
+NEXUS_TRANSLATED = ("#NEXUS\nBEGIN TAXA;\n DIMENSIONS NTAX=4;\n TAXLABELS A B C D;\nEND;\nBEGIN TREES;\n TRANSLATE 1 B, 2 C, 3 D, 4 A;\n"
+                    " TREE a = [&R] ((1,2),(3,4));\n TREE b = [&R] ((1,3),(2,4));\nEND;\n")
+NEXUS_NUMBERED = ("#NEXUS\nBEGIN TAXA;\n DIMENSIONS NTAX=4;\n TAXLABELS A B C D;\nEND;\nBEGIN TREES;\n TREE c = [&R] ((1,2),(3,4));\n"
+                  " TREE d = [&R] ((4,3),(2,1));\nEND;\n")
+
+
+def nexus_files_scope(ctx):
+    """which collection reads which FILE does not matter: a file whose TREES block has a TRANSLATE table of its own and a file that names its tips
+    by taxon number, read through ONE reader (read_from_files, as a serial SumTrees run does) and through one reader per file (as workers do)"""
+    sc = "files@nexus-translate"
+    ctx.scope(sc, rule="two NEXUS files (TRANSLATE 1 B, 2 C, 3 D, 4 A / tips by taxon number, no TRANSLATE) x both orders x {one read_from_files call, "
+                       "one collection per file merged by update}: the same split counts, and the counts of the four trees as written", exhaustive=True)
+    want = {"AB|CD": 2.0, "AC|BD": 1.0, "AD|BC": 1.0}
+
+    def counts(ta):
+        ns = ta.taxon_namespace
+        out = {}
+        for s_, c in ta.split_distribution.split_counts.items():
+            labs = sorted(t.label for t in ns.bitmask_taxa_list(s_))
+            if len(labs) == 2 and "A" in labs:
+                rest = sorted(set("ABCD") - set(labs))
+                out["%s|%s" % ("".join(labs), "".join(rest))] = c
+            elif len(labs) == 2 and "A" not in labs:
+                rest = sorted(set("ABCD") - set(labs))
+                out.setdefault("%s|%s" % ("".join(rest), "".join(labs)), c)
+        return out
+    for oi, order in enumerate(((NEXUS_TRANSLATED, NEXUS_NUMBERED), (NEXUS_NUMBERED, NEXUS_TRANSLATED))):
+        key = "files@nexus-translate|order=%d" % oi
+        ctx.case(sc, key, True)
+        try:
+            ns = dendropy.TaxonNamespace()
+            one = TreeArray(taxon_namespace=ns)
+            one.read_from_files([io.StringIO(x) for x in order], "nexus")
+            ns2 = dendropy.TaxonNamespace()
+            per = TreeArray(taxon_namespace=ns2)
+            for x in order:
+                part = TreeArray(taxon_namespace=ns2)
+                part.read(data=x, schema="nexus")
+                per.update(part)
+            a, b = counts(one), counts(per)
+        except Exception as ex:  # noqa
+            ctx.fail("read_from_files.raises", dict(key=key, scope=sc, order=oi), detail="%s: %s: %s" % (key, type(ex).__name__, ex))
+            continue
+        if a != want or b != want:
+            ctx.fail("read_from_files.same-whoever-reads-the-file", dict(key=key, scope=sc, order=oi),
+                     detail="%s: one reader over both files counts %r, one reader per file %r; the four trees as written have %r" % (key, a, b, want))
+
+
 def t2(ctx):
     import time
     quick = ctx.tier == "quick"
@@ -1145,10 +1198,29 @@ def t2(ctx):
         "implicit/forced rooting), log_frequency 0/1", False, gen_sched(quick, rng_for(ctx, 62), "sumtrees-sched"), chunk=10)
     run("sumtrees-cli", "the real command line, -m 1/2/3/5 against the serial run, with forced rooting (3 source configurations; "
         "smoke: outcomes with implicit rooting depend on OS scheduling on the unchanged tree and are covered by sumtrees-sched)", False, gen_cli("sumtrees-cli"), chunk=1)
+    nexus_files_scope(ctx)
     rep.finish()
 
 
 def replay(ctx, rec):
+    if rec.get("witness", {}).get("scope") == "files@nexus-translate":
+        class _C(object):
+            hits = []
+
+            def scope(self, *a, **k):
+                pass
+
+            def case(self, *a, **k):
+                pass
+
+            def fail(self, name, wit, detail=None):
+                if name == rec["obligation"] and wit.get("key") == rec["witness"].get("key"):
+                    self.hits.append(detail)
+        c = _C()
+        nexus_files_scope(c)
+        for h in c.hits:
+            print("  " + str(h))
+        return not c.hits
     case = rec["witness"]["case"]
     fails = run_case(case)
     for m, d, k, c in fails:
